@@ -342,6 +342,22 @@ def coerce(v, ty):
                 terms += coerce(it, t).terms
             return Val(ty, terms)
         raise TypeError("cannot coerce list to %r" % ty)
+    if isinstance(v, PyDict):
+        if isinstance(ty, TMap) and not v.items:
+            return empty_map(ty.key, ty.val)
+        if isinstance(ty, TRec):
+            terms = []
+            for f, ft in ty.fields.items():
+                if f in v.items:
+                    terms += [z3.BoolVal(True)] + coerce(v.items[f], ft).terms
+                else:
+                    terms += [z3.BoolVal(False)] + default_terms(ft)
+            if set(v.items) - set(ty.fields):
+                terms += [z3.Const(fresh_name("recrest"), TOpaque("RecRest").comps()[0])]
+            else:
+                terms += [z3.Const("recrest!empty", TOpaque("RecRest").comps()[0])]
+            return Val(ty, terms)
+        raise TypeError("cannot coerce dict literal to %r" % ty)
     if v.ty == ty:
         return v
     if isinstance(ty, TOpt):
